@@ -583,9 +583,80 @@ func c15OrphanFlood(w *core.WorkerCtx) {
 	}
 }
 
+// c15EmptyLedger: a joining node serves requests while its ledger is still empty (the sync has not happened yet, or the
+// peer's stream was refused and the node keeps running): correctly signed requests of every kind must be answered,
+// with an error where there is nothing to answer from, never with a crash.
+func c15EmptyLedger(w *core.WorkerCtx) {
+	svc.NoGenesis = true
+	rig, err := svc.New(4, 60, 2048)
+	svc.NoGenesis = false
+	if err != nil {
+		w.R.Inconc("cannot build the node: " + err.Error())
+		return
+	}
+	defer rig.Close()
+	e := &c15env{w: w, rig: rig, rng: core.Rand(w.Seed, "C15empty", w.Batch)}
+	for _, u := range rig.Users {
+		e.addrs = append(e.addrs, u.Addr)
+	}
+	ctx := context.Background()
+	for round := 0; round < 2; round++ {
+		for ui, u := range rig.Users {
+			signed := func() *protobufcompiled.SignedHash {
+				b, err := rig.Notary.Data(ctx, &protobufcompiled.Address{Public: u.Addr})
+				if err != nil || b == nil {
+					return svc.Sign(u, []byte("no challenge"))
+				}
+				return svc.Sign(u, b.Blob)
+			}
+			shape := fmt.Sprintf("valid request of wallet %d on a node with an empty ledger", ui)
+			e.call("notary", "Balance", shape, true, func() (any, error) { return rig.Notary.Balance(ctx, signed()) })
+			e.call("notary", "TransactionsInDAG", shape, true, func() (any, error) { return rig.Notary.TransactionsInDAG(ctx, signed()) })
+			e.call("notary", "Waiting", shape, true, func() (any, error) { return rig.Notary.Waiting(ctx, signed()) })
+			e.call("notary", "Saved", shape, true, func() (any, error) {
+				var h [32]byte
+				return rig.Notary.Saved(ctx, svc.Sign(u, h[:]))
+			})
+			e.call("gossip", "GetVertex", shape, true, func() (any, error) {
+				var h [32]byte
+				h[0] = byte(ui + 1)
+				return rig.Gossip.GetVertex(ctx, svc.Sign(rig.PeerAct[0], h[:]))
+			})
+			e.call("notary", "Propose", shape+" (transfer)", true, func() (any, error) {
+				t := ledger.ForgeTrx(u, rig.Users[(ui+1)%len(rig.Users)].Addr, fmt.Sprintf("empty ledger %d %d", round, ui), nil, spice.Melange{SupplementaryCurrency: 1}, time.Now().Add(-time.Minute))
+				p, _ := transformers.TrxToProtoTrx(t)
+				return rig.Notary.Propose(ctx, p)
+			})
+			e.call("notary", "Propose", shape+" (contract), then Reject", true, func() (any, error) {
+				t := ledger.ForgeTrx(u, rig.Users[(ui+1)%len(rig.Users)].Addr, fmt.Sprintf("empty ledger contract %d %d", round, ui), []byte("contract"), spice.Melange{}, time.Now().Add(-time.Minute))
+				p, _ := transformers.TrxToProtoTrx(t)
+				if _, err := rig.Notary.Propose(ctx, p); err != nil {
+					return nil, err
+				}
+				return rig.Notary.Reject(ctx, svc.Sign(rig.Users[(ui+1)%len(rig.Users)], t.Hash[:]))
+			})
+			e.call("gossip", "GossipVrx", shape, true, func() (any, error) {
+				t := ledger.ForgeTrx(u, rig.Users[(ui+1)%len(rig.Users)].Addr, fmt.Sprintf("empty ledger vertex %d %d", round, ui), []byte("c"), spice.Melange{}, time.Now().Add(-time.Minute))
+				var l ledger.H
+				l[0] = 9
+				v := ledger.ForgeVertex(rig.PeerAct[0], t, l, l, 2, time.Now().Add(-time.Second))
+				return rig.Gossip.GossipVrx(ctx, &protobufcompiled.VrxMsgGossip{Vertex: gossip.VerifVertexToProtoVertex(&v)})
+			})
+		}
+		for i := 0; i < 3; i++ {
+			w.Mark("empty ledger: replay of the orphan buffer")
+			rig.Book.VerifRetryOne(ctx)
+		}
+	}
+	w.R.Count("c15_empty_ledger_rounds", 2)
+}
+
 func c15Worker(w *core.WorkerCtx) {
 	if w.Batch%4 == 1 {
 		c15Concurrent(w)
+	}
+	if w.Batch%4 == 3 {
+		c15EmptyLedger(w)
 	}
 	if w.Batch%4 == 2 {
 		c15OrphanFlood(w)
